@@ -135,6 +135,13 @@ def build():
     span = frh.impl_span(r'impl<S: VhostUserFrontendReqHandler> FrontendReqHandler<S>$')
     u.raw("impl FrontendReqHandler {")
     u.extracted_fn(frh, "check_state", within=span, body_rw=BODY_RW, contract="\n        ensures (r is Ok) == (self.error is None)")
+    # the server's two state setters (third session): each writes exactly its field
+    u.extracted_fn(frh, "set_reply_ack_flag", within=span, body_rw=BODY_RW, contract="""
+        ensures final(self).reply_ack_negotiated == enable, final(self).error == old(self).error, final(self).sub_sock == old(self).sub_sock,
+            final(self).backend == old(self).backend, // [C18:server-reply-ack-setter,C07] acknowledgements are switched exactly as the caller says; nothing else changes""")
+    u.extracted_fn(frh, "set_failed", within=span, body_rw=BODY_RW, contract="""
+        ensures final(self).error == (if error == 0 { None::<i32> } else { Some(error) }), final(self).reply_ack_negotiated == old(self).reply_ack_negotiated,
+            final(self).sub_sock == old(self).sub_sock, final(self).backend == old(self).backend, // [C18:server-failed-setter] 0 clears the failure, anything else records it: check_state refuses every request while it is set""")
     u.extracted_fn(frh, "check_msg_size", within=span, body_rw=BODY_RW, contract="""
         ensures (r is Ok) == (hdr.size as usize == expected && s_req_ok(*hdr) && size == expected) // [C06]""")
     u.extracted_fn(frh, "check_attached_files", within=span, body_rw=BODY_RW, contract="""
